@@ -70,6 +70,9 @@ func cliMakeSet(rng *rand.Rand, root string, k int, longLines bool) *cliSet {
 	// two headers in one source file: two adjacent matches of the same kind
 	s.files["src/double.go"] = []byte("// " + strings.Replace(strings.TrimRight(string(cliRead(hdr[0])), "\n"), "\n", "\n// ", -1) + "\n\n// ---\n\n// " +
 		strings.Replace(strings.TrimRight(string(cliRead(hdr[2])), "\n"), "\n", "\n// ", -1) + "\n\npackage double\n")
+	// names are data, not format strings: URL-escaped and percent-laden paths
+	s.files["my%20project/100%vendored/LICENSE%d.txt"] = pick(lic)
+	s.files["my%20project/%s%v%!/COPYING"] = append([]byte("Copyright 2018 Percent Inc\n\n"), pick(lic)...)
 	for rel, b := range s.files {
 		p := filepath.Join(s.dir, rel)
 		os.MkdirAll(filepath.Dir(p), 0755)
